@@ -51,18 +51,14 @@ type SwapV2 struct {
 }
 
 func (s *SwapV2) GetBestTradeExactIn(ctx context.Context, outId, inId uint64, inAmount *big.Int, maxHops int32) *Trade {
-	pairs := s.swapPools(ctx)
-
-	s.muPairs.RLock()
-	defer s.muPairs.RUnlock()
+	// the list is copied under muPairs; the search itself takes the pairs' order locks and must not
+	// hold muPairs meanwhile (a trade in DeliverTx takes them in the opposite order)
+	pairs := s.SwapPools(ctx)
 
 	return s.trader.GetBestTradeExactIn(ctx, pairs, types.CoinID(outId), NewTokenAmount(types.CoinID(inId), inAmount), maxHops)
 }
 func (s *SwapV2) GetBestTradeExactOut(ctx context.Context, inId, outId uint64, outAmount *big.Int, maxHops int32) *Trade {
-	pairs := s.swapPools(ctx)
-
-	s.muPairs.RLock()
-	defer s.muPairs.RUnlock()
+	pairs := s.SwapPools(ctx)
 
 	return s.trader.GetBestTradeExactOut(ctx, pairs, types.CoinID(inId), NewTokenAmount(types.CoinID(outId), outAmount), maxHops)
 }
@@ -77,36 +73,6 @@ func (p *PairV2) Coin1() types.CoinID {
 	return p.PairKey.Coin1
 }
 
-func (s *SwapV2) swapPools(ctx context.Context) []EditableChecker {
-	s.loadPools()
-
-	select {
-	case <-ctx.Done():
-		return nil
-	default:
-	}
-
-	pools := make([]EditableChecker, 0, len(s.pairs))
-
-	for _, pair := range s.pairs {
-		if pair == nil {
-			continue
-		}
-		pools = append(pools, pair)
-
-		select {
-		case <-ctx.Done():
-			return pools
-		default:
-		}
-	}
-
-	//sort.SliceStable(pools, func(i, j int) bool {
-	//	return pools[i].GetID() < pools[j].GetID()
-	//})
-
-	return pools
-}
 func (s *SwapV2) SwapPools(ctx context.Context) []EditableChecker {
 	s.loadPools()
 
